@@ -48,6 +48,10 @@
 //   from a container / initializer list of themselves (std::any, a recursive Value(std::vector<Value>), a type with an
 //   initializer_list-of-itself constructor); elems are the int tags of the elements   -> ET <number of visits> <visits>
 //   (a visit shows the element's own tag: any_cast<int>, Value::tag; an element that wraps a container shows -1 / -2)
+// case:  bf <form> <kind vec|list|deq|map|fv|arr|carr> <elems>   — the BINDING FORM of the loop variable of enumerate over an
+//   lvalue range of std::string elements (element = decimal text of the tag):  a `auto p`, f `auto&& p`, c `const auto& p`,
+//   k `const auto p`, h the pair handed to a helper taking it by const&  (`auto& p` does not compile: operator* returns a prvalue)
+//   body: is &p.value() the element's own address?  then  p.value() += "x"  (write-through)   -> BF <alias bits> <container afterwards>
 // The temporaries of mode r are created inside the range-for statement itself, so that a dangling adaptor is an
 // AddressSanitizer report (observation CRASH(...)).
 #include "common.hpp"
@@ -788,6 +792,69 @@ template <bool EN> std::string et_type(const std::string& t, const std::string& 
     return "BADCASE";
 }
 
+// ---- binding forms of the enumerate loop variable, class-type elements ----
+// written so that they also accept a COPY handed out by value(): the observation, not the compiler, must show the loss
+static const void* addr_text(const std::string& s) { return &s; }
+static const void* addr_text(const std::pair<const int, std::string>& p) { return &p.second; }
+static void append_x(std::string& s) { s += "x"; }
+static void append_x(std::string&& s) { s += "x"; }
+static void append_x(std::pair<const int, std::string>& p) { p.second += "x"; }
+static void append_x(std::pair<const int, std::string>&& p) { p.second += "x"; }
+static std::string& text_of(std::string& s) { return s; }
+static std::string& text_of(std::pair<const int, std::string>& p) { return p.second; }
+template <class P> void bf_helper(const P& p, const void* want, std::string& alias)
+{
+    alias += (addr_text(p.value()) == want) ? '1' : '0';
+    append_x(p.value());
+}
+template <class C> std::string run_binding(char form, C& c, std::size_t n)
+{
+    std::vector<const void*> want;
+    for (auto& e : c) want.push_back(&text_of(e));
+    std::string alias;
+    std::size_t k = 0;
+#define BF_BODY                                                                                                        \
+    {                                                                                                                  \
+        if (k > n + 2) return "RUNAWAY";                                                                               \
+        alias += (k < want.size() && addr_text(p.value()) == want[k]) ? '1' : '0';                                     \
+        append_x(p.value());                                                                                           \
+        k++;                                                                                                           \
+    }
+    switch (form)
+    {
+    case 'a': for (auto p : nl::enumerate(c)) BF_BODY break;
+    case 'f': for (auto&& p : nl::enumerate(c)) BF_BODY break;
+    case 'c': for (const auto& p : nl::enumerate(c)) BF_BODY break;
+    case 'k': for (const auto p : nl::enumerate(c)) BF_BODY break;
+    case 'h': for (auto p : nl::enumerate(c)) { if (k > n + 2) return "RUNAWAY"; bf_helper(p, k < want.size() ? want[k] : nullptr, alias); k++; } break;
+    default: return "BADCASE";
+    }
+#undef BF_BODY
+    std::string cont;
+    for (auto& e : c) join(cont, ",", text_of(e));
+    return "BF " + dot(alias) + " " + dot(cont);
+}
+static std::string run_binding_kind(char form, const std::string& k, const Elems& e)
+{
+    std::vector<std::string> t;
+    for (int v : e) t.push_back(std::to_string(v));
+    std::size_t n = t.size();
+    if (k == "vec") { std::vector<std::string> c(t); return run_binding(form, c, n); }
+    if (k == "list") { std::list<std::string> c(t.begin(), t.end()); return run_binding(form, c, n); }
+    if (k == "deq") { std::deque<std::string> c(t.begin(), t.end()); return run_binding(form, c, n); }
+    if (k == "map") { std::map<int, std::string> c; for (std::size_t i = 0; i < n; i++) c.emplace(static_cast<int>(i), t[i]); return run_binding(form, c, n); }
+    if (k == "fv") { nl::fixed_vector<std::string> c(n + 2); for (auto& x : t) c.push_back(x); return run_binding(form, c, n); }
+    if (k == "arr")
+        return by_size(n, [&](auto N) { constexpr std::size_t K = decltype(N)::value; std::array<std::string, K> c; for (std::size_t i = 0; i < K; i++) c[i] = t[i]; return run_binding(form, c, n); });
+    if (k == "carr")
+        return by_size(n, [&](auto N) -> std::string {
+            constexpr std::size_t K = decltype(N)::value;
+            if constexpr (K == 0) return "BADCASE";
+            else { std::string c[K]; for (std::size_t i = 0; i < K; i++) c[i] = t[i]; return run_binding(form, c, n); }
+        });
+    return "BADCASE";
+}
+
 constexpr std::size_t MAXN = 6;
 
 template <std::size_t N> std::string run_arr(bool en, char mode, const Elems& e)
@@ -926,6 +993,13 @@ static std::string run_case(const std::vector<std::string>& w)
                 }
             });
         return "BADCASE";
+    }
+    if (w.size() == 4 && w[0] == "bf" && w[1].size() == 1)
+    {
+        Elems e;
+        if (w[3] != ".")
+            for (auto& t : vh::split_on(w[3], ',')) e.push_back(std::atoi(t.c_str()));
+        return run_binding_kind(w[1][0], w[2], e);
     }
     if (w.size() == 6 && w[0] == "et" && (w[1] == "en" || w[1] == "rv") && w[4].size() == 1)
     {
